@@ -299,9 +299,11 @@ fn fold_note(s: &mut Sink, n: &Note<'_>) {
     }
 }
 
-pub fn hostile_indices(len: usize, entsize: usize) -> [usize; 8] {
+pub fn hostile_indices(len: usize, entsize: usize) -> [usize; 12] {
     let es = entsize.max(1);
-    [0, 1, len.wrapping_sub(1), len, len.wrapping_add(1), usize::MAX / es, (usize::MAX / es).wrapping_add(1), usize::MAX]
+    // incl. indices whose product with the entry size wraps to a small offset
+    let half = 1usize << (usize::BITS - 1);
+    [0, 1, len.wrapping_sub(1), len, len.wrapping_add(1), usize::MAX / es, (usize::MAX / es).wrapping_add(1), usize::MAX, half, half / es.next_power_of_two().max(1), (usize::MAX / es).wrapping_add(2), 1usize << (usize::BITS / 2)]
 }
 
 fn walk_table<'d, E: EndianParse, P: ParseAt, F: FnMut(&mut Sink, &P)>(sink: &mut Sink, label: &'static str, t: &ParsingTable<'d, E, P>, class: Class, mut f: F) {
@@ -321,7 +323,7 @@ fn walk_table<'d, E: EndianParse, P: ParseAt, F: FnMut(&mut Sink, &P)>(sink: &mu
     sink.end(Kind::Linear);
 }
 
-const NAMES: [&[u8]; 5] = [b"", b"memset", b"a", b"\xff\xfe", b"use_memset_v2"];
+const NAMES: [&[u8]; 7] = [b"", b"memset", b"a", b"\xff\xfe", b"use_memset_v2", b"\x0f\x0f\x0f\x0f\x0f\x0f\x0f\xff", b"ab\x0f\x0f\x0f\x0f\x0f\x0f\x0f\xf0\xffz"];
 
 fn walk_hashes<'d, E: EndianParse>(sink: &mut Sink, e: E, class: Class, hash_bytes: &'d [u8], symtab: &SymbolTable<'d, E>, strs: &StringTable<'d>) {
     sink.begin("SysVHashTable::new", Kind::Linear);
@@ -401,7 +403,8 @@ pub fn walk_standalone<E: EndianParse>(e: E, class: Class, data: &[u8], sink: &m
     let n = data.len();
     let salt = sink.salt as usize;
     // every ParseAt at hostile offsets
-    let offs = [0usize, 1, salt % (n + 1), n.wrapping_sub(1), n, n + 1, n + 9, usize::MAX - 8, usize::MAX - 1, usize::MAX];
+    let pow = 1usize << (salt % usize::BITS as usize);
+    let offs = [0usize, 1, salt % (n + 1), n.wrapping_sub(1), n, n + 1, n + 9, usize::MAX - 8, usize::MAX - 1, usize::MAX, pow, pow.wrapping_add(salt % (n + 1)), pow.wrapping_sub(1 + salt % 9), (isize::MAX as usize).wrapping_add(salt % (n + 2))];
     macro_rules! pa {
         ($t:ty, $label:expr) => {{
             sink.begin($label, Kind::Linear);
